@@ -613,6 +613,20 @@ COMPLEX_PROVIDER = ScalarProvider(
 )
 
 
+def make_constructor_loader(cls: type[T]) -> Loader[T]:
+    """Creates loader calling a class with input data and translating errors of the constructor to ``LoadError``"""
+
+    def constructor_loader(data):
+        try:
+            return cls(data)
+        except (TypeError, AttributeError):
+            raise TypeLoadError(str, data)
+        except ValueError as e:
+            raise ValueLoadError(str(e), data)
+
+    return constructor_loader
+
+
 @for_predicate(typing.Self if HAS_SELF_TYPE else ~P.ANY)
 class SelfTypeProvider(MorphingProvider):
     def _substituting_provide(self, mediator: Mediator, request: LocatedRequest):
